@@ -209,6 +209,20 @@ func runAImpl(c ACase) (o aObs) {
 		if renderAData(d2, t2, e2) != o.Out || !reflect.DeepEqual(m2, o.Map) {
 			o.Panic = "repeated Data/Tags/ToMapStr returned a different result: " + renderAData(d2, t2, e2)
 		}
+		// the map ToMapStr hands out is the caller's: a consumer that edits the copy it got must not change what
+		// the message reports the next time (header keys above all)
+		snap := map[string]interface{}{}
+		for k, v := range o.Map {
+			snap[k] = v
+		}
+		delete(m2, "raw_msg")
+		m2["sequence"] = 0
+		m2["record_type"] = "edited"
+		m2["consumer_field"] = "x"
+		if m3 := o.Msg.ToMapStr(); !reflect.DeepEqual(m3, snap) && o.Panic == "" {
+			o.Panic = fmt.Sprintf("repeated ToMapStr after the caller edited the map it was given returned a different result: record_type=%v sequence=%v raw_msg present=%v", m3["record_type"], m3["sequence"], m3["raw_msg"] != nil)
+		}
+		o.Map = snap
 	}()
 	select {
 	case <-done:
@@ -557,7 +571,10 @@ func genC12(rng *rand.Rand) ACase {
 			if rng.Intn(3) == 0 {
 				flow = uint32(rng.Int31())
 			}
-			add("saddr", "0A00"+be16(port)+fmt.Sprintf("%08X", flow)+hexUp(ip)+"00000000")
+			// struct sockaddr_in6 with its scope id (28 bytes), without it (the 24-byte RFC 2133 form the kernel
+			// also accepts and logs as passed), cut inside the scope id, or followed by more bytes
+			tail := []string{"00000000", "00000000", "", "00", "0000", "000000", "05000000", "00000000DEADBEEF"}[rng.Intn(8)]
+			add("saddr", "0A00"+be16(port)+fmt.Sprintf("%08X", flow)+hexUp(ip)+tail)
 			exp["family"], exp["addr"], exp["port"] = "ipv6", ip.String(), strconv.Itoa(port)
 			if flow > 0 {
 				exp["flow"] = strconv.Itoa(int(flow))
@@ -1320,6 +1337,21 @@ func auparseFamily(ctx *Ctx) error {
 					}
 				}
 				rec3(pre, 0)
+			}
+		}
+		// every (architecture, syscall) entry of the tables in a full SYSCALL record and in a SECCOMP record, with
+		// small and with all-ones argument values: an entry that gets special treatment shows whichever it is
+		for an, tbl := range auparse.AuditSyscalls {
+			for code, n := range auparse.AuditArchNames {
+				if n != an {
+					continue
+				}
+				for num := range tbl {
+					for _, a0 := range []string{"1", "15", "ffffffffffffffff"} {
+						run(mkACase("data", 1300, fmt.Sprintf("audit(1.000:1): arch=%x syscall=%d success=no exit=-22 a0=%s a1=%s a2=0 a3=7ffd items=0 ppid=1 pid=2 auid=0 uid=0 gid=0 tty=pts0 ses=1 comm=\"x\" exe=\"/x\" key=(null)", uint32(code), num, a0, a0)), false, true, "table:syscall-args")
+					}
+					run(mkACase("data", 1326, fmt.Sprintf("audit(1.000:1): auid=0 uid=0 gid=0 ses=1 pid=2 comm=\"x\" exe=\"/x\" sig=31 arch=%x syscall=%d compat=0 ip=0x7f code=0x0", uint32(code), num)), false, true, "table:syscall-args")
+				}
 			}
 		}
 		// sizes a generated record does not reach by chance: values, field counts and argument counts at and
